@@ -1,5 +1,6 @@
 // C11/C12 correspondence harness: the real ygm::container::map / multimap / set / multiset driven by a
 // scenario file.   args:  map|multimap|set|multiset  <kinds>  <scenario file>  [variant]
+//        (or:  keyeq <d|v|p><m|s> <scenario file>  - key-equivalence scenarios, see the section "key equivalence" below)
 //   kinds: key kind + value kind, 's' = std::string, 'i' = int64_t, 'u' = uint64_t over the full range (sets: key kind only)
 //   variant: 'd' default template arguments (hash_partitioner, std::less)
 //            'g' Compare = std::greater<Key>
@@ -29,6 +30,7 @@
 #include <fstream>
 #include <memory>
 #include <algorithm>
+#include <cstring>
 
 using i64 = int64_t;
 static const i64 MOD = 1000003;
@@ -315,11 +317,118 @@ int run_set(ygm::comm& world, const std::vector<std::string>& lines) {
   return 0;
 }
 
+// ---------------------------------------------------------------------------------------- key equivalence ("keyeq")
+// A key is what the container's Compare (resp. operator==) says it is, not its object representation.  Key types whose
+// bytes are not in 1:1 correspondence with their value:
+//   d  double: +0.0 / -0.0 are one key
+//   v  vkey {uint32 id; uint32 tag}: operator<, operator== and std::hash look at id only (tag differs between call sites)
+//   p  pkey {uint8 a; uint64 b}: 7 padding bytes, deliberately filled with different garbage (memset before the fields)
+// args: keyeq <d|v|p><m|s> <scenario>      (m = ygm::container::map<K,int64_t>, s = ygm::container::set<K>)
+// directives:  o <rank> <op> <key> [value]   op: vis vie red iev ins iim era (map) | ins era (set)
+//              B | size | count <key> | own <key>... | forall | gather <rank|-1> <key>...
+// key tokens:  d `=<strtod text>`   v `=<id>:<tag>`   p `=<a>:<b>:<garbage byte>`
+// every rank prints `A <line> <answer>` for every directive with an answer (S n | C n | O owners | F k v; | G k v;)
+struct vkey { uint32_t id; uint32_t tag; template <class A> void serialize(A& ar) { ar(id, tag); } };
+inline bool operator<(const vkey& x, const vkey& y) { return x.id < y.id; }
+inline bool operator==(const vkey& x, const vkey& y) { return x.id == y.id; }
+struct pkey { uint8_t a; uint64_t b; template <class A> void serialize(A& ar) { ar(a, b); } };
+inline bool operator<(const pkey& x, const pkey& y) { return x.a != y.a ? x.a < y.a : x.b < y.b; }
+inline bool operator==(const pkey& x, const pkey& y) { return x.a == y.a && x.b == y.b; }
+namespace std {
+template <> struct hash<vkey> { size_t operator()(const vkey& k) const { return std::hash<uint32_t>{}(k.id); } };
+template <> struct hash<pkey> { size_t operator()(const pkey& k) const { return std::hash<uint64_t>{}(k.b * 257 + k.a); } };
+}  // namespace std
+
+template <class K> struct keq;
+template <> struct keq<double> {
+  static __attribute__((noinline)) void make(double* out, const std::string& t) { *out = strtod(t.c_str() + 1, nullptr); }
+  static std::string enc(const double& k) { char b[64]; snprintf(b, sizeof b, "=%.17g", k); return b; }
+};
+template <> struct keq<vkey> {
+  static __attribute__((noinline)) void make(vkey* out, const std::string& t) {
+    char* e = nullptr; out->id = (uint32_t)strtoull(t.c_str() + 1, &e, 10); out->tag = (uint32_t)strtoull(e + 1, nullptr, 10);
+  }
+  static std::string enc(const vkey& k) { return "=" + std::to_string(k.id) + ":" + std::to_string(k.tag); }
+};
+template <> struct keq<pkey> {
+  static __attribute__((noinline)) void make(pkey* out, const std::string& t) {
+    char* e = nullptr; unsigned long long a = strtoull(t.c_str() + 1, &e, 10); unsigned long long b = strtoull(e + 1, &e, 10);
+    int g = (int)strtoull(e + 1, nullptr, 10);
+    memset((void*)out, g, sizeof(pkey));        // the padding bytes keep the garbage: only the named members are assigned
+    out->a = (uint8_t)a; out->b = (uint64_t)b;
+    if (((const unsigned char*)out)[3] != (unsigned char)g) hc::out("padlost");
+  }
+  static std::string enc(const pkey& k) { return "=" + std::to_string((unsigned)k.a) + ":" + std::to_string(k.b); }
+};
+template <class K> struct kq_inc { void operator()(const K&, i64& v) { ++v; } };
+template <class K> struct kq_add { void operator()(const K&, i64& v, const i64& offered) { v += offered; } };
+
+template <class K, bool MAP> int run_keyeq(ygm::comm& world, const std::vector<std::string>& lines) {
+  using C = typename std::conditional<MAP, ygm::container::map<K, i64>, ygm::container::set<K>>::type;
+  C m(world);
+  for (size_t li = 0; li < lines.size(); ++li) {
+    auto w = toks(lines[li]);
+    if (w.empty()) continue;
+    if (w[0] == "o") {
+      if (atoi(w[1].c_str()) != world.rank()) continue;
+      const std::string& op = w[2];
+      K k; keq<K>::make(&k, w[3]);
+      i64 v = w.size() > 4 ? atoll(w[4].c_str()) : 0;
+      if (op == "era") m.async_erase(k);
+      else if constexpr (MAP) {
+        if (op == "vis") m.async_visit(k, kq_inc<K>());
+        else if (op == "vie") m.async_visit_if_exists(k, kq_inc<K>());
+        else if (op == "red") m.async_reduce(k, v, std::plus<i64>());
+        else if (op == "iev") m.async_insert_if_missing_else_visit(k, v, kq_add<K>());
+        else if (op == "ins") m.async_insert(k, v);
+        else if (op == "iim") m.async_insert_if_missing(k, v);
+        else { hc::out("bad-op " + lines[li]); return 3; }
+      } else {
+        if (op == "ins") m.async_insert(k);
+        else { hc::out("bad-op " + lines[li]); return 3; }
+      }
+      continue;
+    }
+    std::string ans;
+    if (w[0] == "B") { world.barrier(); continue; }
+    else if (w[0] == "size") ans = "S " + std::to_string(m.size());
+    else if (w[0] == "count") { K k; keq<K>::make(&k, w[1]); ans = "C " + std::to_string(m.count(k)); }
+    else if (w[0] == "own") { ans = "O"; for (size_t i = 1; i < w.size(); ++i) { K k; keq<K>::make(&k, w[i]); ans += " " + std::to_string(m.owner(k)); } }
+    else if (w[0] == "forall") {
+      ans = "F";
+      if constexpr (MAP) m.for_all([&ans](const K& k, i64& v) { ans += " " + keq<K>::enc(k) + " " + std::to_string(v) + ";"; });
+      else m.for_all([&ans](const K& k) { ans += " " + keq<K>::enc(k) + ";"; });
+    } else if (w[0] == "gather") {
+      if constexpr (MAP) {
+        int who = atoi(w[1].c_str()); std::vector<K> ks;
+        if (who < 0 || who == world.rank()) for (size_t i = 2; i < w.size(); ++i) { K k; keq<K>::make(&k, w[i]); ks.push_back(k); }
+        auto res = m.all_gather(ks);
+        ans = "G"; for (auto& kv : res) ans += " " + keq<K>::enc(kv.first) + " " + std::to_string(kv.second) + ";";
+      } else { hc::out("bad-directive " + lines[li]); return 3; }
+    } else { hc::out("bad-directive " + lines[li]); return 3; }
+    hc::out("A " + std::to_string(li) + " " + ans);
+  }
+  world.barrier();
+  return 0;
+}
+
+static int dispatch_keyeq(ygm::comm& world, const std::string& kinds, const std::vector<std::string>& lines) {
+  if (kinds == "dm") return run_keyeq<double, true>(world, lines);
+  if (kinds == "ds") return run_keyeq<double, false>(world, lines);
+  if (kinds == "vm") return run_keyeq<vkey, true>(world, lines);
+  if (kinds == "vs") return run_keyeq<vkey, false>(world, lines);
+  if (kinds == "pm") return run_keyeq<pkey, true>(world, lines);
+  if (kinds == "ps") return run_keyeq<pkey, false>(world, lines);
+  hc::out("bad-kinds");
+  return 2;
+}
+
 // the scenario body takes the communicator as a parameter: the same code (same template instantiations, same lambda /
 // functor types) runs on a sub-communicator and on the world communicator of one process
 static int dispatch(ygm::comm& world, const std::string& what, const std::string& kinds, const std::string& variant,
                     const std::vector<std::string>& lines) {
   g_log_pack = world.size() == 1;
+  if (what == "keyeq") { g_log_pack = false; return dispatch_keyeq(world, kinds, lines); }
   using str = std::string;
   using hp_s = ygm::container::detail::hash_partitioner<str>; using hp_i = ygm::container::detail::hash_partitioner<i64>;
   if (variant == "g") {
